@@ -29,6 +29,7 @@ type PathResult struct {
 	Symbolic  bool              `json:"symbolic"`
 	Threads   int               `json:"threads,omitempty"`
 	Sched     []int             `json:"sched,omitempty"`
+	Selects   []int             `json:"selects,omitempty"`
 	Chooses   []int             `json:"chooses,omitempty"`
 }
 
@@ -149,6 +150,7 @@ func (in *Interp) finishResult(res *PathResult) {
 	res.Chooses = append([]int(nil), in.chooses...)
 	if len(in.threads) > 1 {
 		res.Sched = append([]int(nil), in.schedTrace...)
+		res.Selects = append([]int(nil), in.selTrace...)
 	}
 	res.Steps = in.nsteps
 	res.Notes = append(res.Notes, in.pathNotes...)
